@@ -488,3 +488,63 @@ func c04HourUse(c *Ctx, p *Prog, typ, what string) {
 	}
 	_ = types.Typ
 }
+
+// replayWindow extracts, from the parser that consults the replay filter, the
+// set of accepted hour offsets and the TTL of the filter it consults.
+func replayWindow(p *Prog) (offs []int64, ttl int64, why string) {
+	vs := p.funcsCalling("transports/obfs4", idTestAndSet)
+	if len(vs) == 0 {
+		return nil, 0, "no caller of ReplayFilter.TestAndSet in transports/obfs4"
+	}
+	for _, V := range vs {
+		ff := p.Facts(V)
+		for _, tcall := range p.CallsIn(V, idTestAndSet) {
+			T, ok := tcall.(*ssa.Call)
+			if !ok {
+				continue
+			}
+			var E *ssa.Call
+			for _, f := range ff.NC(T.Block()) {
+				if e, ok := p.FactCallBool(f, "crypto/hmac.Equal"); ok && f.Pol {
+					E = e
+				}
+			}
+			if E == nil {
+				return nil, 0, "TestAndSet is not guarded by hmac.Equal"
+			}
+			sum := sumPrefix(p, E.Common().Args[0], 16)
+			if sum == nil {
+				sum = sumPrefix(p, E.Common().Args[1], 16)
+			}
+			if sum == nil {
+				return nil, 0, "compared value is not Sum(nil)[:16]"
+			}
+			mi := p.macInputOf(sum)
+			if mi.Err != "" || mi.HourExpr == nil {
+				return nil, 0, "cannot identify the hour hashed: " + mi.Err
+			}
+			o, w := hourOffsets(p, mi.HourExpr)
+			if w != "" {
+				return nil, 0, w
+			}
+			offs = o
+			for _, ov := range p.Origins(T.Common().Args[0]) {
+				nc, _ := callOf(ov)
+				if nc == nil || p.CalleeID(nc.Common()) != M("$M/common/replayfilter.New") {
+					return nil, 0, "filter does not originate from replayfilter.New"
+				}
+				k, ok := intConst(nc.Common().Args[0])
+				if !ok {
+					return nil, 0, "TTL is not a constant"
+				}
+				if ttl == 0 || k < ttl {
+					ttl = k
+				}
+			}
+		}
+	}
+	if len(offs) == 0 || ttl == 0 {
+		return nil, 0, "offsets or TTL not found"
+	}
+	return offs, ttl, ""
+}
